@@ -1,3 +1,8 @@
 open BinNums
 
 val scanned_refattrs : (coq_N list * coq_N list) list
+
+val redirect_excluded : (coq_N list * coq_N list) list
+
+val redirect_excluded_on :
+  ((coq_N list * coq_N list) * (coq_N list * coq_N list)) list
